@@ -354,7 +354,7 @@ Section HistProofs.
   Variable M : Type.
 
   (* shape-correct, and the adjoint sends zero seeds to zero (or None) results: for every memory and point *)
-  Definition h_shaped (h : hmod M) : Prop :=
+  Definition h_shaped (h : @hmod K M) : Prop :=
     forallb (wt_ref dims) (h_ins h) = true /\
     (forall mu xs, map (@length K) (snd (h_resp h mu xs)) = map dims (h_outs h)) /\
     (forall mu xs ys ws, shapes ws (map dims (h_outs h)) ->
@@ -363,9 +363,9 @@ Section HistProofs.
                               (h_sens h mu xs ys (map (fun o => vzero (dims o)) (h_outs h)))
                               (map (ref_dim dims) (h_ins h))).
 
-  Definition h_memless (h : hmod M) : Prop := exists f g, memoryless M h f g.
+  Definition h_memless (h : @hmod K M) : Prop := exists f g, memoryless h f g.
 
-  Lemma at_point_shaped st h mu : h_shaped h -> adj_shaped (at_point M st h mu) /\ zero_preserving (at_point M st h mu).
+  Lemma at_point_shaped st h mu : h_shaped h -> adj_shaped (at_point st h mu) /\ zero_preserving (at_point st h mu).
   Proof.
     intros [H1 [H2 [H3 H4]]]. split.
     - split; [exact H1|]. intros ws Hws. simpl. apply H3. exact Hws.
@@ -373,7 +373,7 @@ Section HistProofs.
   Qed.
 
   Lemma at_points_shaped st mods : Forall h_shaped mods -> forall mems,
-    Forall adj_shaped (at_points M st mods mems) /\ Forall zero_preserving (at_points M st mods mems).
+    Forall adj_shaped (at_points st mods mems) /\ Forall zero_preserving (at_points st mods mems).
   Proof.
     induction 1 as [|h mods Hh _ IH]; intros mems; [split; constructor|].
     destruct mems as [|mu mems]; [split; constructor|].
@@ -382,32 +382,33 @@ Section HistProofs.
   Qed.
 
   (* ---- wiring *)
-  Lemma written_shell mods : written (map (shell M) mods) = h_written M mods.
+  Lemma written_shell (mods : list (@hmod K M)) : written (map (shell) mods) = h_written mods.
   Proof. unfold written, h_written. induction mods as [|h mods IH]; [reflexivity|]. simpl. rewrite IH. reflexivity. Qed.
 
-  Lemma hwf_cons h mods : hwf M (h :: mods) = true ->
-    NoDup (h_outs h) /\ (forall x, In x (h_outs h) -> ~ In x (h_written M mods)) /\
-    (forall r, In r (h_ins h) -> ~ In (ref_sig r) (h_outs h) /\ ~ In (ref_sig r) (h_written M mods)) /\
-    hwf M mods = true.
+  Lemma hwf_cons (h : @hmod K M) mods : hwf (h :: mods) = true ->
+    NoDup (h_outs h) /\ (forall x, In x (h_outs h) -> ~ In x (h_written mods)) /\
+    (forall r, In r (h_ins h) -> ~ In (ref_sig r) (h_outs h) /\ ~ In (ref_sig r) (h_written mods)) /\
+    hwf mods = true.
   Proof.
-    unfold hwf. simpl. intros H. apply (wf_net_cons dims) in H as [H1 [H2 [H3 H4]]].
+    unfold hwf. intros H. change (map shell (h :: mods)) with (shell h :: map shell mods) in H.
+    apply (wf_net_cons dims) in H as [H1 [H2 [H3 H4]]].
     rewrite written_shell in *. simpl in *. repeat split; auto.
     - apply (H3 (ref_sig r)). unfold ins_sigs. simpl. apply in_map. assumption.
     - apply (H3 (ref_sig r)). unfold ins_sigs. simpl. apply in_map. assumption.
   Qed.
 
   (* ---- the states after a response depend on the inputs of the network only *)
-  Definition resp_pure (h : hmod M) : Prop := forall mu mu' xs, snd (h_resp h mu xs) = snd (h_resp h mu' xs).
+  Definition resp_pure (h : @hmod K M) : Prop := forall mu mu' xs, snd (h_resp h mu xs) = snd (h_resp h mu' xs).
 
   Lemma shaped_arity h : h_shaped h -> forall mu xs, length (snd (h_resp h mu xs)) = length (h_outs h).
   Proof.
     intros [_ [H2 _]] mu xs. rewrite <- (map_length (@length K)), H2. apply map_length.
   Qed.
 
-  Lemma resp_states_inputs_only mods : hwf M mods = true -> Forall resp_pure mods -> Forall h_shaped mods ->
+  Lemma resp_states_inputs_only (mods : list (@hmod K M)) : hwf mods = true -> Forall resp_pure mods -> Forall h_shaped mods ->
     forall mems1 mems2 (st1 st2 : tenv K), length mems1 = length mods -> length mems2 = length mods ->
-    (forall x, ~ In x (h_written M mods) -> st1 x = st2 x) ->
-    forall x, snd (resp_all M mods mems1 st1) x = snd (resp_all M mods mems2 st2) x.
+    (forall x, ~ In x (h_written mods) -> st1 x = st2 x) ->
+    forall x, snd (resp_all mods mems1 st1) x = snd (resp_all mods mems2 st2) x.
   Proof.
     induction mods as [|h mods IH]; intros Hwf Hp Hs mems1 mems2 st1 st2 L1 L2 Hag x.
     - destruct mems1, mems2; simpl; apply Hag; intros [].
@@ -418,12 +419,12 @@ Section HistProofs.
       intros y Hy.
       assert (Hxs : map (read_t st1) (h_ins h) = map (read_t st2) (h_ins h)).
       { apply map_ext_in. intros r Hr. apply read_t_agree. apply Hag.
-        change (h_written M (h :: mods)) with (h_outs h ++ h_written M mods). rewrite in_app_iff.
+        change (h_written (h :: mods)) with (h_outs h ++ h_written mods). rewrite in_app_iff.
         destruct (Hins r Hr). tauto. }
       rewrite Hxs, (Hp1 m1 m2). apply write_outs_agree.
       rewrite (shaped_arity h Hs1), firstn_all.
       destruct (in_dec Nat.eq_dec y (h_outs h)) as [Hi|Hi]; [right; exact Hi|].
-      left. apply Hag. change (h_written M (h :: mods)) with (h_outs h ++ h_written M mods). rewrite in_app_iff. tauto.
+      left. apply Hag. change (h_written (h :: mods)) with (h_outs h ++ h_written mods). rewrite in_app_iff. tauto.
   Qed.
 
   Lemma write_outs_len outs : forall ys (st : tenv K), map (@length K) ys = map dims outs ->
@@ -442,9 +443,9 @@ Section HistProofs.
   Qed.
 
   Lemma resp_all_len mods : Forall h_shaped mods -> forall mems (st : tenv K), length mems = length mods ->
-    length (fst (resp_all M mods mems st)) = length mods /\
-    forall s, (In s (h_written M mods) -> length (snd (resp_all M mods mems st) s) = dims s) /\
-              (~ In s (h_written M mods) -> snd (resp_all M mods mems st) s = st s).
+    length (fst (resp_all mods mems st)) = length mods /\
+    forall s, (In s (h_written mods) -> length (snd (resp_all mods mems st) s) = dims s) /\
+              (~ In s (h_written mods) -> snd (resp_all mods mems st) s = st s).
   Proof.
     induction 1 as [|h mods Hh _ IH]; intros mems st L.
     - destruct mems; [|discriminate]. simpl. split; [reflexivity|]. intros s. split; [intros [] | reflexivity].
@@ -455,9 +456,713 @@ Section HistProofs.
       intros s. destruct (B s) as [B1 B2].
       destruct Hh as [_ [H2 _]].
       destruct (write_outs_len (h_outs h) (snd r) st (H2 mu _) s) as [C1 C2].
-      change (h_written M (h :: mods)) with (h_outs h ++ h_written M mods). rewrite in_app_iff. split.
-      + intros Hin. destruct (in_dec Nat.eq_dec s (h_written M mods)) as [Hi|Hi]; [apply B1; exact Hi|].
+      change (h_written (h :: mods)) with (h_outs h ++ h_written mods). rewrite in_app_iff. split.
+      + intros Hin. destruct (in_dec Nat.eq_dec s (h_written mods)) as [Hi|Hi]; [apply B1; exact Hi|].
         rewrite B2 by exact Hi. apply C1. tauto.
       + intros Hn. rewrite B2 by tauto. apply C2. tauto.
+  Qed.
+
+  (* ------------------------------------------------------------------ what Network.reset reaches *)
+  Notation hmodK := (@hmod K M).
+
+  Lemma direct_intro (mods : list hmodK) s : In (RSig s) (net_refs mods) -> direct mods s = true.
+  Proof.
+    intros Hin. unfold direct. apply mem_In. unfold sig_refs. apply in_flat_map.
+    exists (RSig s). split; [exact Hin | left; reflexivity].
+  Qed.
+
+  Lemma direct_kills (mods : list hmodK) s k : direct mods s = true -> exists r, In r (net_refs mods) /\ kills r s k.
+  Proof.
+    unfold direct. intros H. apply mem_In in H. unfold sig_refs in H. apply in_flat_map in H as [r [Hr Hs]].
+    exists r. split; [exact Hr|]. destruct r as [s'|s' idx|s' idx]; simpl in *; try contradiction.
+    destruct Hs as [->|[]]. reflexivity.
+  Qed.
+
+  Lemma covered_intro (mods : list hmodK) s idx k : In (RSlice s idx) (net_refs mods) -> In k idx -> covered mods s k = true.
+  Proof.
+    intros Hin Hk. unfold covered. apply existsb_exists. exists (RSlice s idx). split; [exact Hin|].
+    rewrite Nat.eqb_refl. simpl. apply mem_In. exact Hk.
+  Qed.
+
+  Lemma covered_kills (mods : list hmodK) s k : covered mods s k = true -> exists r, In r (net_refs mods) /\ kills r s k.
+  Proof.
+    unfold covered. intros H. apply existsb_exists in H as [r [Hr Hb]]. exists r. split; [exact Hr|].
+    destruct r as [s'|s' idx|s' idx]; try discriminate.
+    apply andb_true_iff in Hb as [E Hm]. apply Nat.eqb_eq in E. apply mem_In in Hm. simpl. auto.
+  Qed.
+
+  Lemma ins_in_net_refs (mods : list hmodK) h r : In h mods -> In r (h_ins h) -> In r (net_refs mods).
+  Proof.
+    intros Hh Hr. unfold net_refs. apply in_flat_map. exists h. split; [apply in_rev in Hh; exact Hh|].
+    unfold mod_refs. apply in_or_app. right. exact Hr.
+  Qed.
+
+  Definition cov (mods : list hmodK) (c : cenv K) : Prop :=
+    forall s g, c s = Some g -> direct mods s = true \/ forall k, covered mods s k = true \/ nth k g 0' = 0'.
+
+  Lemma nth_scatter_notin idx : forall vals (base : vec K) k, ~ In k idx -> nth k (scatter_set idx vals base) 0' = nth k base 0'.
+  Proof.
+    induction idx as [|i idx IH]; intros vals base k Hn; [reflexivity|].
+    destruct vals as [|v vals]; [reflexivity|].
+    change (scatter_set (i :: idx) (v :: vals) base) with (scatter_set idx vals (set_at i v base)).
+    rewrite IH by (intros H; apply Hn; right; exact H).
+    apply nth_set_at_neq. intros ->. apply Hn. left. reflexivity.
+  Qed.
+
+  Lemma add_sens_cov (mods : list hmodK) d (c : cenv K) r dd : cov mods c -> In r (net_refs mods) -> cov mods (add_sens d c r dd).
+  Proof.
+    intros Hc Hr s g. destruct (Nat.eq_dec s (ref_sig r)) as [->|Hn]; [|rewrite add_sens_other by exact Hn; apply Hc].
+    destruct dd as [dv|]; [|apply Hc].
+    destruct r as [s|s idx|s idx]; simpl.
+    - intros _. left. apply direct_intro. exact Hr.
+    - rewrite upd_same. intros [= <-].
+      destruct (c s) as [g0|] eqn:E.
+      + destruct (Hc s g0 E) as [Hd|Hk]; [left; exact Hd|]. right. intros k.
+        destruct (in_dec Nat.eq_dec k idx) as [Hi|Hi]; [left; apply (covered_intro mods s idx k Hr Hi)|].
+        unfold slice_add. rewrite nth_scatter_notin by exact Hi. apply Hk.
+      + right. intros k.
+        destruct (in_dec Nat.eq_dec k idx) as [Hi|Hi]; [left; apply (covered_intro mods s idx k Hr Hi)|].
+        unfold slice_add. rewrite nth_scatter_notin by exact Hi. right. apply nth_vzero.
+    - rewrite upd_same. intros [= <-].
+      destruct (c s) as [g0|] eqn:E; [apply (Hc s g0 E)|]. right. intros k. right. apply nth_vzero.
+  Qed.
+
+  Lemma add_all_cov (mods : list hmodK) d rds : forall (c : cenv K), cov mods c ->
+    (forall rd, In rd rds -> In (fst rd) (net_refs mods)) -> cov mods (add_all d rds c).
+  Proof.
+    induction rds as [|rd rds IH]; intros c Hc Hin; [exact Hc|].
+    simpl. apply IH; [|intros; apply Hin; right; assumption].
+    apply add_sens_cov; [exact Hc | apply Hin; left; reflexivity].
+  Qed.
+
+  Lemma bwd_cov (mods : list hmodK) d ms : (forall m r, In m ms -> In r (m_ins m) -> In r (net_refs mods)) ->
+    forall c : cenv K, cov mods c -> cov mods (bwd d ms c).
+  Proof.
+    induction ms as [|m ms IH]; intros Hin c Hc; [exact Hc|].
+    rewrite bwd_cons. unfold bwd_mod.
+    assert (IHc : cov mods (bwd d ms c)) by (apply IH; [intros; eapply Hin; [right|]; eassumption | exact Hc]).
+    destruct (skip m _); [exact IHc|].
+    unfold apply_adj. apply add_all_cov; [exact IHc|].
+    intros [r dd] Hrd. simpl. apply (Hin m r); [left; reflexivity | eapply in_combine_l; exact Hrd].
+  Qed.
+
+  Lemma at_points_In st (mods : list hmodK) : forall mems m, In m (at_points st mods mems) ->
+    exists h mu, In h mods /\ m = at_point st h mu.
+  Proof.
+    induction mods as [|h mods IH]; intros mems m Hm; [destruct mems; contradiction|].
+    destruct mems as [|mu mems]; [contradiction|]. simpl in Hm. destruct Hm as [<-|Hm].
+    - exists h, mu. split; [left; reflexivity | reflexivity].
+    - destruct (IH mems m Hm) as [h' [mu' [A B]]]. exists h', mu'. split; [right; exact A | exact B].
+  Qed.
+
+  Lemma reset_refs_cov (mods : list hmodK) refs (c : cenv K) : cov mods c -> cov mods (reset_refs keep refs c).
+  Proof.
+    intros Hc s g' E.
+    destruct (c s) as [g|] eqn:Ec; [|rewrite (reset_refs_none refs c s Ec) in E; discriminate].
+    destruct (Hc s g Ec) as [Hd|Hk]; [left; exact Hd|]. right. intros k.
+    destruct (Hk k) as [A|A]; [left; exact A|]. right.
+    assert (Z : zero_at (reset_refs keep refs c s) k).
+    { apply reset_refs_zero_at. left. rewrite Ec. exact A. }
+    rewrite E in Z. exact Z.
+  Qed.
+
+  (* ------------------------------------------------------------------ the invariant of admissible histories *)
+  Definition inv (mods : list hmodK) (x : nst M) : Prop :=
+    length (s_mem x) = length mods /\
+    (forall s, ~ In s (h_written mods) -> length (s_st x s) = dims s) /\
+    (s_fresh x = true -> forall s, length (s_st x s) = dims s) /\
+    wt_cot dims (s_se x) /\ cov mods (s_se x).
+
+  Lemma mod_ext_refl (ms : list (module K)) : Forall2 mod_ext ms ms.
+  Proof. induction ms; constructor; auto. repeat split; reflexivity. Qed.
+
+  Lemma bwd_shaped_wt ms : Forall adj_shaped ms -> forall c : cenv K, wt_cot dims c -> wt_cot dims (bwd dims ms c).
+  Proof.
+    induction 1 as [|m ms Hm _ IH]; intros c Hc; [exact Hc|].
+    rewrite bwd_cons. apply bwd_mod_wt; auto.
+  Qed.
+
+  Lemma inv_step (mods : list hmodK) x o : Forall h_shaped mods -> inv mods x -> admissible mods x o ->
+    inv mods (step keep mods x o).
+  Proof.
+    intros Hs [I0 [I1 [I2 [I3 I4]]]] Ha. unfold inv.
+    destruct o as [s v| |s w| |]; cbn [step admissible s_st s_se s_mem s_fresh] in *.
+    - destruct Ha as [Hw Hl]. split; [exact I0|]. split; [|split; [discriminate|split; assumption]].
+      intros s' Hs'. unfold upd. destruct (Nat.eqb s' s) eqn:E; [|apply I1; exact Hs'].
+      apply Nat.eqb_eq in E. subst. rewrite Hl. apply I1. exact Hw.
+    - destruct (resp_all_len mods Hs (s_mem x) (s_st x) I0) as [A B].
+      split; [exact A|]. split; [|split; [|split; assumption]].
+      + intros s Hn. destruct (B s) as [_ B2]. rewrite B2 by exact Hn. apply I1. exact Hn.
+      + intros _ s. destruct (B s) as [B1 B2].
+        destruct (in_dec Nat.eq_dec s (h_written mods)) as [Hi|Hi]; [apply B1; exact Hi|].
+        rewrite B2 by exact Hi. apply I1. exact Hi.
+    - destruct Ha as [Hd [Hl Hf]]. split; [exact I0|]. split; [exact I1|]. split; [exact I2|]. split.
+      + intros s' g. unfold upd. destruct (Nat.eqb s' s) eqn:E; [|apply I3].
+        apply Nat.eqb_eq in E. subst. intros [= <-]. rewrite Hl. apply I2. exact Hf.
+      + intros s' g. unfold upd. destruct (Nat.eqb s' s) eqn:E; [|apply I4].
+        apply Nat.eqb_eq in E. subst. intros _. left. exact Hd.
+    - split; [exact I0|]. split; [exact I1|]. split; [exact I2|]. split.
+      + unfold sens_all. intros s g E.
+        rewrite (bwd_congr (sdims (s_st x)) dims _ _ (fun s0 => I2 Ha s0) (mod_ext_refl _) (s_se x) (s_se x)
+                           (fun _ => eq_refl) s) in E.
+        revert s g E. apply bwd_shaped_wt; [|exact I3]. apply at_points_shaped. exact Hs.
+      + unfold sens_all. apply bwd_cov; [|exact I4].
+        intros m r Hm Hr. destruct (at_points_In _ _ _ _ Hm) as [h [mu [Hh ->]]]. simpl in Hr.
+        apply (ins_in_net_refs mods h r Hh Hr).
+    - split; [exact I0|]. split; [exact I1|]. split; [exact I2|]. split.
+      + unfold reset_all. intros s g E.
+        pose proof (reset_refs_len (net_refs mods) (s_se x) s (dims s)) as L.
+        rewrite E in L. apply L. destruct (s_se x s) as [g0|] eqn:E0; simpl; [apply (I3 s g0 E0) | exact I].
+      + apply reset_refs_cov. exact I4.
+  Qed.
+
+  Lemma inv_fresh (mods : list hmodK) mem0 (inputs : tenv K) :
+    length mem0 = length mods -> (forall s, ~ In s (h_written mods) -> length (inputs s) = dims s) ->
+    inv mods (fresh dims keep mods mem0 inputs).
+  Proof.
+    intros L Hi. unfold inv, fresh. simpl. repeat split; auto; try discriminate.
+    - intros s Hn. pose proof Hn as Hn'. apply mem_false in Hn. rewrite Hn. apply Hi. exact Hn'.
+    - intros s g. destruct (keep s); [|discriminate]. intros [= <-]. apply length_vzero.
+    - intros s g. destruct (keep s); [|discriminate]. intros [= <-]. right. intros k. right. apply nth_vzero.
+  Qed.
+
+  Lemma inv_run (mods : list hmodK) : Forall h_shaped mods -> forall ops x,
+    inv mods x -> admissible_run keep mods ops x -> inv mods (run keep mods ops x).
+  Proof.
+    intros Hs. induction ops as [|o ops IH]; intros x Hi Ha; [exact Hi|].
+    destruct Ha as [A B]. simpl. apply IH; [apply inv_step; assumption | exact B].
+  Qed.
+
+  Lemma admissible_run_app (mods : list hmodK) a : forall b x,
+    admissible_run keep mods (a ++ b) x <-> admissible_run keep mods a x /\ admissible_run keep mods b (run keep mods a x).
+  Proof.
+    induction a as [|o a IH]; intros b x; simpl; [tauto|]. rewrite IH. tauto.
+  Qed.
+
+  Lemma run_app (mods : list hmodK) a b x : run keep mods (a ++ b) x = run keep mods b (run keep mods a x).
+  Proof. unfold run. apply fold_left_app. Qed.
+
+  (* ------------------------------------------------------------------ reset() leaves no sensitivity behind *)
+  Theorem reset_clears (mods : list hmodK) x : inv mods x ->
+    forall s, zeroish (dims s) (s_se (step keep mods x OReset) s).
+  Proof.
+    intros [_ [_ [_ [I3 I4]]]] s. simpl. unfold reset_all.
+    apply zeroish_of_zero_at.
+    - apply reset_refs_len. destruct (s_se x s) as [g|] eqn:E; simpl; [apply (I3 s g E) | exact I].
+    - intros k. apply reset_refs_zero_at.
+      destruct (s_se x s) as [g|] eqn:E; [|left; exact I].
+      destruct (I4 s g E) as [Hd|Hk].
+      + right. apply direct_kills. exact Hd.
+      + destruct (Hk k) as [A|A]; [right; apply covered_kills; exact A | left; exact A].
+  Qed.
+
+  Lemma run_cons (mods : list hmodK) o ops x : run keep mods (o :: ops) x = run keep mods ops (step keep mods x o).
+  Proof. reflexivity. Qed.
+
+  (* ------------------------------------------------------------------ seeding *)
+  Definition seed_env (seeds : list (nat * vec K)) (c : cenv K) : cenv K :=
+    fold_left (fun c sw => upd c (fst sw) (Some (snd sw))) seeds c.
+
+  Lemma run_seed_ops (mods : list hmodK) seeds : forall x,
+    s_st (run keep mods (seed_ops seeds) x) = s_st x /\ s_mem (run keep mods (seed_ops seeds) x) = s_mem x /\
+    s_fresh (run keep mods (seed_ops seeds) x) = s_fresh x /\
+    s_se (run keep mods (seed_ops seeds) x) = seed_env seeds (s_se x).
+  Proof.
+    induction seeds as [|sw seeds IH]; intros x; [repeat split; reflexivity|].
+    change (seed_ops (sw :: seeds)) with (OSeed (fst sw) (snd sw) :: seed_ops seeds).
+    rewrite run_cons. destruct (IH (step keep mods x (OSeed (fst sw) (snd sw)))) as [A [B [C D]]].
+    rewrite A, B, C, D. repeat split; reflexivity.
+  Qed.
+
+  Lemma seed_env_rel seeds : forall c1 c2 : cenv K, (forall x, rel (c1 x) (c2 x) (dims x)) ->
+    forall x, rel (seed_env seeds c1 x) (seed_env seeds c2 x) (dims x).
+  Proof.
+    induction seeds as [|sw seeds IH]; intros c1 c2 H x; [apply H|].
+    simpl. apply IH. intros y. unfold upd. destruct (Nat.eqb y (fst sw)); [left; reflexivity | apply H].
+  Qed.
+
+  Definition seeds_shaped (seeds : list (nat * vec K)) : Prop :=
+    Forall (fun sw => length (snd sw) = dims (fst sw)) seeds.
+
+  Lemma seed_env_wt seeds : seeds_shaped seeds -> forall c : cenv K, wt_cot dims c -> wt_cot dims (seed_env seeds c).
+  Proof.
+    induction 1 as [|sw seeds Hsw _ IH]; intros c Hc; [exact Hc|].
+    simpl. apply IH. intros s g. unfold upd. destruct (Nat.eqb s (fst sw)) eqn:E; [|apply Hc].
+    apply Nat.eqb_eq in E. subst. intros [= <-]. exact Hsw.
+  Qed.
+
+  Lemma memless_resp_pure h : h_memless h -> resp_pure h.
+  Proof. intros [f [g [Hr _]]] mu mu' xs. rewrite !Hr. reflexivity. Qed.
+
+  Lemma at_points_ext (mods : list hmodK) : Forall h_memless mods -> forall mx my (stx sty : tenv K),
+    length mx = length mods -> length my = length mods -> (forall s, stx s = sty s) ->
+    Forall2 mod_ext (at_points sty mods my) (at_points stx mods mx).
+  Proof.
+    induction 1 as [|h mods Hh _ IH]; intros mx my stx sty Lx Ly E.
+    - destruct mx, my; constructor.
+    - destruct mx as [|m1 mx]; [discriminate|]. destruct my as [|m2 my]; [discriminate|].
+      simpl. constructor; [|apply IH; simpl in *; auto].
+      repeat split; try reflexivity. intros ws. simpl.
+      destruct Hh as [f [g [_ Hg]]]. rewrite !Hg.
+      rewrite (map_ext_in (read_t sty) (read_t stx)) by (intros r _; apply read_t_agree; symmetry; apply E).
+      rewrite (map_ext sty stx) by (intros; symmetry; apply E). reflexivity.
+  Qed.
+
+
+  (* ------------------------------------------------------------------ MAIN (memoryless modules):
+     from any state of an admissible history whose sensitivities are clean (what reset() establishes),
+     response; seeds; sensitivity gives what a freshly constructed network gives on the same inputs and seeds *)
+  Theorem cycle_from_clean (mods : list hmodK) mem0 x seeds :
+    hwf mods = true -> Forall h_shaped mods -> Forall h_memless mods -> length mem0 = length mods ->
+    inv mods x -> (forall s, zeroish (dims s) (s_se x s)) -> seeds_shaped seeds ->
+    (forall s, s_st (run keep mods (fresh_cycle seeds) x) s
+               = s_st (run keep mods (fresh_cycle seeds) (fresh dims keep mods mem0 (s_st x))) s) /\
+    ceq dims (s_se (run keep mods (fresh_cycle seeds) x))
+             (s_se (run keep mods (fresh_cycle seeds) (fresh dims keep mods mem0 (s_st x)))).
+  Proof.
+    intros Hwf Hs Hm L0 Hi Hz Hsd.
+    set (y0 := fresh dims keep mods mem0 (s_st x)).
+    assert (Hiy : inv mods y0) by (apply inv_fresh; [exact L0 | apply Hi]).
+    unfold fresh_cycle. change ([OResp] ++ seed_ops seeds ++ [OSens]) with (OResp :: (seed_ops seeds ++ [OSens])).
+    rewrite !run_cons, !run_app.
+    set (x1 := step keep mods x OResp). set (y1 := step keep mods y0 OResp).
+    assert (Hi1 : inv mods x1) by (apply inv_step; [exact Hs | exact Hi | exact I]).
+    assert (Hiy1 : inv mods y1) by (apply inv_step; [exact Hs | exact Hiy | exact I]).
+    destruct (run_seed_ops mods seeds x1) as [A1 [B1 [C1 D1]]].
+    destruct (run_seed_ops mods seeds y1) as [A2 [B2 [C2 D2]]].
+    cbn [run fold_left step s_st s_se s_mem s_fresh].
+    fold (run keep mods (seed_ops seeds) x1). fold (run keep mods (seed_ops seeds) y1).
+    rewrite A1, A2, B1, B2, D1, D2.
+    (* states *)
+    assert (S : forall s, s_st x1 s = s_st y1 s).
+    { intros s. unfold x1, y1. cbn [step s_st].
+      apply resp_states_inputs_only; auto.
+      - apply Forall_impl with (2 := Hm). apply memless_resp_pure.
+      - apply Hi.
+      - intros z Hz'. unfold y0, fresh. cbn [s_st]. apply mem_false in Hz'. rewrite Hz'. reflexivity. }
+    split; [exact S|].
+    (* sensitivities *)
+    assert (Dx : forall s, sdims (s_st x1) s = dims s).
+    { intros s. destruct Hi1 as [_ [_ [I2 _]]]. apply I2. reflexivity. }
+    assert (Dy : forall s, sdims (s_st y1) s = dims s).
+    { intros s. unfold sdims. rewrite <- S. apply Dx. }
+    assert (Lx : length (s_mem x1) = length mods) by apply Hi1.
+    assert (Ly : length (s_mem y1) = length mods) by apply Hiy1.
+    set (P := at_points (s_st x1) mods (s_mem x1)).
+    set (c1 := seed_env seeds (s_se x1)). set (c2 := seed_env seeds (s_se y1)).
+    assert (Ex : forall s, sens_all mods (s_mem x1) (s_st x1) c1 s = bwd dims P c1 s).
+    { intros s. unfold sens_all. apply bwd_congr; [exact Dx | apply mod_ext_refl | reflexivity]. }
+    assert (Ey : forall s, sens_all mods (s_mem y1) (s_st y1) c2 s = bwd dims P c2 s).
+    { intros s. unfold sens_all. apply bwd_congr; [exact Dy | | reflexivity].
+      apply at_points_ext; auto. }
+    destruct (at_points_shaped (s_st x1) mods Hs (s_mem x1)) as [PA PZ].
+    assert (W1 : wt_cot dims c1) by (apply seed_env_wt; [exact Hsd | apply Hi1]).
+    assert (W2 : wt_cot dims c2) by (apply seed_env_wt; [exact Hsd | apply Hiy1]).
+    assert (R : forall s, rel (c1 s) (c2 s) (dims s)).
+    { apply seed_env_rel. intros s. right. split; [apply Hz|].
+      unfold y1, y0, fresh. cbn [step s_se]. destruct (keep s); [right | left]; reflexivity. }
+    destruct (bwd_rel P PA PZ c1 c2 W1 W2 R) as [RR _].
+    apply ceq_rel. intros s. rewrite Ex, Ey. apply RR.
+  Qed.
+
+  (* ------------------------------------------------------------------ any history, then the final cycle *)
+  Definition only_sets (ops : list (@op K)) : Prop := Forall (fun o => exists s v, o = OSet s v) ops.
+
+  Lemma run_sets_se (mods : list hmodK) ops : only_sets ops -> forall x, s_se (run keep mods ops x) = s_se x.
+  Proof.
+    induction 1 as [|o ops [s [v ->]] _ IH]; intros x; [reflexivity|].
+    rewrite run_cons, IH. reflexivity.
+  Qed.
+
+  Theorem history_independent (mods : list hmodK) mem0 (inputs0 : tenv K) hist sets seeds :
+    hwf mods = true -> Forall h_shaped mods -> Forall h_memless mods -> length mem0 = length mods ->
+    (forall s, ~ In s (h_written mods) -> length (inputs0 s) = dims s) ->
+    only_sets sets -> seeds_shaped seeds ->
+    admissible_run keep mods (hist ++ [OReset] ++ sets) (fresh dims keep mods mem0 inputs0) ->
+    let xh := run keep mods (hist ++ [OReset] ++ sets) (fresh dims keep mods mem0 inputs0) in
+    let xf := run keep mods (fresh_cycle seeds) xh in
+    let yf := run keep mods (fresh_cycle seeds) (fresh dims keep mods mem0 (s_st xh)) in
+    (forall s, s_st xf s = s_st yf s) /\ ceq dims (s_se xf) (s_se yf).
+  Proof.
+    intros Hwf Hs Hm L0 Hin Hsets Hsd Hadm. cbv zeta.
+    apply cycle_from_clean; auto.
+    - apply inv_run; [exact Hs | apply inv_fresh; assumption | exact Hadm].
+    - intros s. rewrite app_assoc, run_app, (run_sets_se mods sets Hsets), run_app.
+      apply reset_clears.
+      rewrite app_assoc in Hadm. apply admissible_run_app in Hadm as [Hadm _].
+      apply admissible_run_app in Hadm as [Hadm _].
+      apply inv_run; [exact Hs | apply inv_fresh; assumption | exact Hadm].
+  Qed.
+
+  (* ------------------------------------------------------------------ sensitivity() without any seed *)
+  Theorem unseeded_sensitivity_noop (mods : list hmodK) x :
+    Forall (fun h : hmodK => h_outs h <> []) mods -> (forall s, s_se x s = None) ->
+    forall s, s_se (step keep mods x OSens) s = None.
+  Proof.
+    intros Hne Hnone. cbn [step s_se]. unfold sens_all.
+    generalize (s_mem x) as mems. generalize (sdims (s_st x)) as d. intros d.
+    induction Hne as [|h mods Hh _ IH]; intros mems s; [destruct mems; apply Hnone|].
+    destruct mems as [|mu mems]; [apply Hnone|].
+    cbn [at_points]. rewrite bwd_cons.
+    rewrite (unseeded_module_noop d (at_point (s_st x) h mu)); [apply IH | exact Hh | intros o _; apply IH].
+  Qed.
+
+  (* with zeroed arrays kept by keep_alloc the modules do run, but only zeros are added *)
+  Lemma rel_zeroish_l (a b : option (vec K)) n : rel a b n -> zeroish n b -> zeroish n a.
+  Proof. intros [->|[Z _]] Hb; assumption. Qed.
+
+  Lemma bwd_mod_zeroish m (c : cenv K) : adj_shaped m -> zero_preserving m -> wt_cot dims c ->
+    (forall s, zeroish (dims s) (c s)) -> forall s, zeroish (dims s) (bwd_mod dims m c s).
+  Proof.
+    intros [Hw Ha] Hz Hc Hall s. unfold bwd_mod. destruct (skip m _); [apply Hall|].
+    unfold apply_adj. rewrite (fill_all_zeroish _ c (fun o _ => Hall o)).
+    apply (rel_zeroish_l _ (c s)); [|apply Hall].
+    apply add_all_rel_zero; auto. intros y. left. reflexivity.
+  Qed.
+
+  Lemma bwd_zeroish ms : Forall adj_shaped ms -> Forall zero_preserving ms -> forall c : cenv K,
+    wt_cot dims c -> (forall s, zeroish (dims s) (c s)) -> forall s, zeroish (dims s) (bwd dims ms c s).
+  Proof.
+    intros Hs Hz c Hc Hall. induction ms as [|m ms IH]; [exact Hall|].
+    inversion Hs as [|? ? Hs1 Hs2]; inversion Hz as [|? ? Hz1 Hz2]; subst.
+    intros s. rewrite bwd_cons. apply bwd_mod_zeroish; auto. apply bwd_shaped_wt; assumption.
+  Qed.
+
+  Theorem clean_sensitivity_stays_clean (mods : list hmodK) x :
+    Forall h_shaped mods -> inv mods x -> s_fresh x = true -> (forall s, zeroish (dims s) (s_se x s)) ->
+    forall s, zeroish (dims s) (s_se (step keep mods x OSens) s).
+  Proof.
+    intros Hs Hi Hf Hz s. cbn [step s_se].
+    assert (D : forall s0, sdims (s_st x) s0 = dims s0) by (destruct Hi as [_ [_ [I2 _]]]; apply I2; exact Hf).
+    unfold sens_all.
+    rewrite (bwd_congr (sdims (s_st x)) dims _ _ D (mod_ext_refl _) (s_se x) (s_se x) (fun _ => eq_refl) s).
+    destruct (at_points_shaped (s_st x) mods Hs (s_mem x)) as [PA PZ].
+    apply bwd_zeroish; auto. apply Hi.
+  Qed.
+
+  (* ------------------------------------------------------------------ caching modules: `Good mem inputs` *)
+  Record cspec : Type := {
+    c_mu0 : M;
+    c_good : M -> option (list (vec K)) -> Prop;
+    c_f : list (vec K) -> list (vec K);
+    c_g : list (vec K) -> list (vec K) -> list (vec K) -> list (option (vec K))
+  }.
+  Definition cc (h : hmodK) (sp : cspec) : Prop := cache_correct h (c_mu0 sp) (c_good sp) (c_f sp) (c_g sp).
+  Definition pure_h (h : hmodK) (sp : cspec) : hmodK := pure_of h (c_f sp) (c_g sp).
+  Fixpoint pures (mods : list hmodK) (specs : list cspec) : list hmodK :=
+    match mods, specs with
+    | h :: mods', sp :: specs' => pure_h h sp :: pures mods' specs'
+    | _, _ => []
+    end.
+
+  (* every memory is Good for the inputs of the latest response; directly after a response (fr = true) these are
+     the current input states and the current output states are f of them *)
+  Fixpoint good_all (st : tenv K) (fr : bool) (mods : list hmodK) (specs : list cspec) (mems : list M) : Prop :=
+    match mods, specs, mems with
+    | h :: mods', sp :: specs', mu :: mems' =>
+      (exists last, c_good sp mu last /\
+                    (fr = true -> last = Some (map (read_t st) (h_ins h)) /\
+                                  map st (h_outs h) = c_f sp (map (read_t st) (h_ins h)))) /\
+      good_all st fr mods' specs' mems'
+    | [], [], [] => True
+    | _, _, _ => False
+    end.
+
+  Lemma good_all_weaken st st' mods : forall specs mems, good_all st true mods specs mems \/ good_all st false mods specs mems ->
+    good_all st' false mods specs mems.
+  Proof.
+    induction mods as [|h mods IH]; intros [|sp specs] [|mu mems] H; simpl in *; try tauto; try (destruct H; tauto).
+    destruct H as [[[last [G _]] H]|[[last [G _]] H]]; (split; [exists last; split; [exact G | discriminate] | apply IH; auto]).
+  Qed.
+
+  Lemma good_all_ext st st' fr mods : (forall s, st s = st' s) -> forall specs mems,
+    good_all st fr mods specs mems -> good_all st' fr mods specs mems.
+  Proof.
+    intros E. induction mods as [|h mods IH]; intros [|sp specs] [|mu mems] H; simpl in *; try tauto.
+    destruct H as [[last [G F]] H]. split; [|apply IH; exact H].
+    exists last. split; [exact G|]. intros Hf. destruct (F Hf) as [A B].
+    rewrite <- (map_ext_in (read_t st) (read_t st')) by (intros r _; apply read_t_agree; apply E).
+    rewrite <- (map_ext st st' E). split; assumption.
+  Qed.
+
+  Lemma good_all_len st fr mods : forall specs mems, good_all st fr mods specs mems -> length mems = length mods.
+  Proof.
+    induction mods as [|h mods IH]; intros [|sp specs] [|mu mems] H; simpl in *; try tauto.
+    destruct H as [_ H]. rewrite (IH _ _ H). reflexivity.
+  Qed.
+
+  Lemma pures_written mods : forall specs, length specs = length mods -> h_written (pures mods specs) = h_written mods.
+  Proof.
+    induction mods as [|h mods IH]; intros [|sp specs] L; try discriminate; [reflexivity|].
+    simpl. unfold h_written in *. simpl. rewrite IH by (simpl in L; lia). reflexivity.
+  Qed.
+
+  Lemma pures_refs mods : forall specs, length specs = length mods ->
+    map mod_refs (pures mods specs) = map mod_refs mods.
+  Proof.
+    induction mods as [|h mods IH]; intros [|sp specs] L; try discriminate; [reflexivity|].
+    simpl. rewrite IH by (simpl in L; lia). reflexivity.
+  Qed.
+
+  Lemma net_refs_map (a b : list hmodK) : map mod_refs a = map mod_refs b -> net_refs a = net_refs b.
+  Proof.
+    intros E. unfold net_refs. rewrite !flat_map_concat_map, !map_rev, E. reflexivity.
+  Qed.
+
+  Lemma reset_ref_congr (c1 c2 : cenv K) r x : c1 x = c2 x -> reset_ref keep c1 r x = reset_ref keep c2 r x.
+  Proof.
+    intros E. destruct (Nat.eq_dec x (ref_sig r)) as [->|Hn]; [|rewrite !reset_ref_other by exact Hn; exact E].
+    destruct r as [s|s idx|s idx]; simpl in *; [| |exact E].
+    - rewrite <- E. destruct (c1 s) eqn:E1; [|congruence]. destruct (keep s); rewrite !upd_same; reflexivity.
+    - rewrite <- E. destruct (c1 s) eqn:E1; [|congruence]. rewrite !upd_same; reflexivity.
+  Qed.
+
+  Lemma reset_refs_congr refs : forall (c1 c2 : cenv K), (forall x, c1 x = c2 x) ->
+    forall x, reset_refs keep refs c1 x = reset_refs keep refs c2 x.
+  Proof.
+    induction refs as [|r refs IH]; intros c1 c2 E x; [apply E|].
+    simpl. apply IH. intros y. apply reset_ref_congr. apply E.
+  Qed.
+
+  Lemma map_write_outs outs : forall ys (st : tenv K), NoDup outs -> length ys = length outs ->
+    map (write_outs outs ys st) outs = ys.
+  Proof.
+    induction outs as [|o outs IH]; intros ys st Hnd L; [destruct ys; [reflexivity | discriminate]|].
+    destruct ys as [|y ys]; [discriminate|]. inversion Hnd as [|? ? Ho Hnd']; subst.
+    simpl. f_equal.
+    - assert (H : forall ys0 (st0 : tenv K), write_outs outs ys0 st0 o = st0 o).
+      { clear -Ho. induction outs as [|o' outs IH]; intros ys0 st0; [reflexivity|].
+        destruct ys0 as [|y0 ys0]; [reflexivity|]. simpl. rewrite IH by (intros H; apply Ho; right; exact H).
+        apply upd_other. intros ->. apply Ho. left. reflexivity. }
+      rewrite H. apply upd_same.
+    - apply IH; [exact Hnd' | simpl in L; lia].
+  Qed.
+
+  (* one response of the whole network: the network with memory and its memoryless counterpart stay together *)
+  Lemma resp_sim (mods : list hmodK) : forall specs mems memsp (st stp : tenv K),
+    hwf mods = true -> Forall h_shaped mods -> Forall2 cc mods specs ->
+    good_all st false mods specs mems -> length memsp = length mods -> (forall s, st s = stp s) ->
+    (forall s, snd (resp_all mods mems st) s = snd (resp_all (pures mods specs) memsp stp) s) /\
+    good_all (snd (resp_all mods mems st)) true mods specs (fst (resp_all mods mems st)) /\
+    length (fst (resp_all (pures mods specs) memsp stp)) = length mods.
+  Proof.
+    induction mods as [|h mods IH]; intros specs mems memsp st stp Hwf Hs Hcc Hg Lp E.
+    - inversion Hcc; subst. destruct mems; [|contradiction]. destruct memsp; [|discriminate].
+      simpl. auto.
+    - inversion Hcc as [|? sp ? specs' Hc Hcc']; subst.
+      destruct mems as [|mu mems]; [contradiction|]. destruct memsp as [|mup memsp]; [discriminate|].
+      apply hwf_cons in Hwf as [Hnd [Hdis [Hins Hwf]]].
+      inversion Hs as [|? ? Hs1 Hs2]; subst.
+      destruct Hg as [[last [G _]] Hg].
+      destruct Hc as [_ [Hresp Hsens]].
+      set (xs := map (read_t st) (h_ins h)).
+      destruct (Hresp mu last xs G) as [G' Ef].
+      assert (Exs : map (read_t stp) (h_ins h) = xs).
+      { unfold xs. apply map_ext_in. intros r _. apply read_t_agree. symmetry. apply E. }
+      cbn [resp_all pures pure_h pure_of h_resp h_ins h_outs fst snd]. rewrite Exs. fold xs. rewrite Ef.
+      set (st1 := write_outs (h_outs h) (c_f sp xs) st).
+      set (stp1 := write_outs (h_outs h) (c_f sp xs) stp).
+      assert (E1 : forall s, st1 s = stp1 s).
+      { intros s. unfold st1, stp1. apply write_outs_agree. left. apply E. }
+      assert (Hg1 : good_all st1 false mods specs' mems) by (apply (good_all_weaken st); right; exact Hg).
+      destruct (IH specs' mems memsp st1 stp1 Hwf Hs2 Hcc' Hg1 ltac:(simpl in Lp; lia) E1) as [A [B C]].
+      split; [exact A|]. split; [|simpl; rewrite C; reflexivity].
+      cbn [good_all]. split; [|exact B].
+      exists (Some xs). split; [exact G'|]. intros _.
+      destruct (resp_all_len mods Hs2 mems st1 (good_all_len _ _ _ _ _ Hg)) as [_ U].
+      set (stf := snd (resp_all mods mems st1)) in *.
+      assert (Hys : map (@length K) (c_f sp xs) = map dims (h_outs h)).
+      { rewrite <- Ef. destruct Hs1 as [_ [H2 _]]. apply H2. }
+      assert (Hxs : map (read_t stf) (h_ins h) = xs).
+      { unfold xs. apply map_ext_in. intros r Hr. apply read_t_agree.
+        destruct (Hins r Hr) as [N1 N2]. destruct (U (ref_sig r)) as [_ U2]. rewrite U2 by exact N2.
+        unfold st1. apply (write_outs_len (h_outs h) (c_f sp xs) st Hys (ref_sig r)). exact N1. }
+      rewrite Hxs. split; [reflexivity|].
+      rewrite (map_ext_in stf st1) by (intros o Ho; apply (U o); apply Hdis; exact Ho).
+      unfold st1. apply map_write_outs; [exact Hnd|].
+      rewrite <- (map_length (@length K)), Hys. apply map_length.
+  Qed.
+
+  Definition sim (mods : list hmodK) (specs : list cspec) (x p : nst M) : Prop :=
+    (forall s, s_st x s = s_st p s) /\ (forall s, s_se x s = s_se p s) /\ s_fresh x = s_fresh p /\
+    length (s_mem p) = length mods /\ good_all (s_st x) (s_fresh x) mods specs (s_mem x).
+
+  Lemma at_points_sim (mods : list hmodK) : forall specs mems memsp (stx stp : tenv K),
+    Forall2 cc mods specs -> good_all stx true mods specs mems -> length memsp = length mods ->
+    (forall s, stx s = stp s) ->
+    Forall2 mod_ext (at_points stx mods mems) (at_points stp (pures mods specs) memsp).
+  Proof.
+    induction mods as [|h mods IH]; intros specs mems memsp stx stp Hcc Hg Lp E.
+    - inversion Hcc; subst. destruct mems; [|contradiction]. constructor.
+    - inversion Hcc as [|? sp ? specs' Hc Hcc']; subst.
+      destruct mems as [|mu mems]; [contradiction|]. destruct memsp as [|mup memsp]; [discriminate|].
+      destruct Hg as [[last [G F]] Hg]. destruct (F eq_refl) as [-> Eo].
+      cbn [at_points pures]. constructor; [|apply IH; auto].
+      repeat split; try reflexivity. intros ws. cbn [at_point m_adj pure_h pure_of h_sens h_ins h_outs].
+      destruct Hc as [_ [_ Hsens]].
+      rewrite Eo, (Hsens mu _ ws G).
+      rewrite <- (map_ext_in (read_t stx) (read_t stp)) by (intros r _; apply read_t_agree; apply E).
+      rewrite <- (map_ext stx stp E), Eo. reflexivity.
+  Qed.
+
+  Lemma cc_length (mods : list hmodK) specs : Forall2 cc mods specs -> length specs = length mods.
+  Proof. induction 1; simpl; auto. Qed.
+
+  Lemma sim_step (mods : list hmodK) specs x p o :
+    hwf mods = true -> Forall h_shaped mods -> Forall2 cc mods specs -> sim mods specs x p ->
+    (o = OSens -> s_fresh x = true) ->
+    sim mods specs (step keep mods x o) (step keep (pures mods specs) p o).
+  Proof.
+    intros Hwf Hs Hcc [S1 [S2 [S3 [S4 S5]]]] Hf. unfold sim.
+    destruct o as [s v| |s w| |]; cbn [step s_st s_se s_mem s_fresh].
+    - split; [|split; [exact S2|split; [reflexivity|split; [exact S4|]]]].
+      + intros s'. unfold upd. destruct (Nat.eqb s' s); [reflexivity | apply S1].
+      + apply (good_all_weaken (s_st x)). destruct (s_fresh x); [left | right]; exact S5.
+    - assert (G0 : good_all (s_st x) false mods specs (s_mem x)).
+      { apply (good_all_weaken (s_st x)). destruct (s_fresh x); [left | right]; exact S5. }
+      destruct (resp_sim mods specs (s_mem x) (s_mem p) (s_st x) (s_st p) Hwf Hs Hcc G0 S4 S1) as [A [B C]].
+      split; [exact A|]. split; [exact S2|]. split; [reflexivity|]. split; [exact C | exact B].
+    - split; [exact S1|]. split; [|split; [exact S3|split; [exact S4 | exact S5]]].
+      intros s'. unfold upd. destruct (Nat.eqb s' s); [reflexivity | apply S2].
+    - split; [exact S1|]. split; [|split; [exact S3|split; [exact S4 | exact S5]]].
+      intros s. unfold sens_all. apply bwd_congr; [| |exact S2].
+      + intros s0. unfold sdims. rewrite S1. reflexivity.
+      + apply at_points_sim; auto. rewrite (Hf eq_refl) in S5. exact S5.
+    - split; [exact S1|]. split; [|split; [exact S3|split; [exact S4 | exact S5]]].
+      intros s. unfold reset_all.
+      rewrite (net_refs_map (pures mods specs) mods (pures_refs mods specs (cc_length _ _ Hcc))).
+      apply reset_refs_congr. exact S2.
+  Qed.
+
+  (* the protocol bit that matters here: sensitivity() only directly after a response() *)
+  Fixpoint fresh_ok (fr : bool) (ops : list (@op K)) : bool :=
+    match ops with
+    | [] => true
+    | OSet _ _ :: r => fresh_ok false r
+    | OResp :: r => fresh_ok true r
+    | OSens :: r => fr && fresh_ok fr r
+    | _ :: r => fresh_ok fr r
+    end.
+
+  Lemma admissible_fresh_ok (mods : list hmodK) ops : forall x,
+    admissible_run keep mods ops x -> fresh_ok (s_fresh x) ops = true.
+  Proof.
+    induction ops as [|o ops IH]; intros x Ha; [reflexivity|].
+    destruct Ha as [A B]. specialize (IH _ B).
+    destruct o; cbn [fresh_ok step s_fresh] in *; auto. simpl in A. rewrite A in *. exact IH.
+  Qed.
+
+  Theorem cache_network_behaves_pure (mods : list hmodK) specs :
+    hwf mods = true -> Forall h_shaped mods -> Forall2 cc mods specs ->
+    forall ops x p, sim mods specs x p -> fresh_ok (s_fresh x) ops = true ->
+    sim mods specs (run keep mods ops x) (run keep (pures mods specs) ops p).
+  Proof.
+    intros Hwf Hs Hcc. induction ops as [|o ops IH]; intros x p Hsim Hf; [exact Hsim|].
+    rewrite !run_cons. apply IH.
+    - apply sim_step; auto. intros ->. simpl in Hf. apply andb_true_iff in Hf. tauto.
+    - destruct o; cbn [fresh_ok step s_fresh] in *; auto. apply andb_true_iff in Hf. tauto.
+  Qed.
+
+  Lemma good_all_init st (mods : list hmodK) : forall specs, Forall2 cc mods specs ->
+    good_all st false mods specs (map c_mu0 specs).
+  Proof.
+    induction mods as [|h mods IH]; intros specs Hcc; inversion Hcc as [|? sp ? specs' Hc Hcc']; subst; [exact I|].
+    simpl. split; [|apply IH; exact Hcc'].
+    exists None. split; [apply Hc | discriminate].
+  Qed.
+
+  Lemma sim_fresh (mods : list hmodK) specs memp (i1 i2 : tenv K) :
+    Forall2 cc mods specs -> length memp = length mods -> (forall s, i1 s = i2 s) ->
+    sim mods specs (fresh dims keep mods (map c_mu0 specs) i1) (fresh dims keep (pures mods specs) memp i2).
+  Proof.
+    intros Hcc L E. unfold sim, fresh. cbn [s_st s_se s_mem s_fresh].
+    rewrite (pures_written mods specs (cc_length _ _ Hcc)).
+    split; [intros s; destruct (mem s (h_written mods)); [reflexivity | apply E]|].
+    split; [reflexivity|]. split; [reflexivity|]. split; [exact L|].
+    apply good_all_init. exact Hcc.
+  Qed.
+
+  Lemma pures_shell (mods : list hmodK) : forall specs, length specs = length mods ->
+    map shell (pures mods specs) = map shell mods.
+  Proof.
+    induction mods as [|h mods IH]; intros [|sp specs] L; try discriminate; [reflexivity|].
+    simpl. rewrite IH by (simpl in L; lia). reflexivity.
+  Qed.
+
+  Lemma pures_memless (mods : list hmodK) : forall specs, Forall h_memless (pures mods specs).
+  Proof.
+    induction mods as [|h mods IH]; intros [|sp specs]; simpl; constructor; [|apply IH].
+    exists (c_f sp), (c_g sp). split; reflexivity.
+  Qed.
+
+  Lemma pures_length (mods : list hmodK) : forall specs, length specs = length mods ->
+    length (pures mods specs) = length mods.
+  Proof.
+    induction mods as [|h mods IH]; intros [|sp specs] L; try discriminate; [reflexivity|].
+    simpl. rewrite IH by (simpl in L; lia). reflexivity.
+  Qed.
+
+  Lemma admissible_sim (mods : list hmodK) specs x p o : Forall2 cc mods specs -> sim mods specs x p ->
+    admissible mods x o -> admissible (pures mods specs) p o.
+  Proof.
+    intros Hcc [S1 [S2 [S3 _]]] Ha. pose proof (cc_length _ _ Hcc) as L.
+    destruct o as [s v| |s w| |]; simpl in *; auto.
+    - rewrite (pures_written mods specs L), <- S1. exact Ha.
+    - unfold direct in *. rewrite (net_refs_map (pures mods specs) mods (pures_refs mods specs L)), <- S1, <- S3. exact Ha.
+    - rewrite <- S3. exact Ha.
+  Qed.
+
+  Lemma admissible_run_sim (mods : list hmodK) specs : hwf mods = true -> Forall h_shaped mods -> Forall2 cc mods specs ->
+    forall ops x p, sim mods specs x p -> admissible_run keep mods ops x ->
+    admissible_run keep (pures mods specs) ops p.
+  Proof.
+    intros Hwf Hs Hcc. induction ops as [|o ops IH]; intros x p Hsim Ha; [exact I|].
+    destruct Ha as [A B]. split; [eapply admissible_sim; eassumption|].
+    apply (IH (step keep mods x o)); [|exact B].
+    apply sim_step; auto. intros ->. exact A.
+  Qed.
+
+  Lemma fresh_ok_cycle seeds fr : fresh_ok fr (fresh_cycle seeds) = true.
+  Proof.
+    unfold fresh_cycle. cbn [app fresh_ok]. induction seeds as [|sw seeds IH]; [reflexivity | exact IH].
+  Qed.
+
+  (* networks of cache-correct modules are history independent as well *)
+  Theorem cache_history_independent (mods : list hmodK) specs (inputs0 : tenv K) hist sets seeds :
+    hwf mods = true -> Forall h_shaped mods -> Forall2 cc mods specs -> Forall h_shaped (pures mods specs) ->
+    (forall s, ~ In s (h_written mods) -> length (inputs0 s) = dims s) ->
+    only_sets sets -> seeds_shaped seeds ->
+    admissible_run keep mods (hist ++ [OReset] ++ sets) (fresh dims keep mods (map c_mu0 specs) inputs0) ->
+    let xh := run keep mods (hist ++ [OReset] ++ sets) (fresh dims keep mods (map c_mu0 specs) inputs0) in
+    let xf := run keep mods (fresh_cycle seeds) xh in
+    let yf := run keep mods (fresh_cycle seeds) (fresh dims keep mods (map c_mu0 specs) (s_st xh)) in
+    (forall s, s_st xf s = s_st yf s) /\ ceq dims (s_se xf) (s_se yf).
+  Proof.
+    intros Hwf Hs Hcc Hsp Hin Hsets Hsd Hadm. cbv zeta.
+    pose proof (cc_length _ _ Hcc) as L.
+    set (P := pures mods specs). set (mem0 := map c_mu0 specs).
+    set (ops := hist ++ [OReset] ++ sets).
+    assert (Lm : length mem0 = length mods) by (unfold mem0; rewrite map_length; exact L).
+    assert (LP : length mem0 = length P) by (unfold P; rewrite pures_length; assumption).
+    set (x0 := fresh dims keep mods mem0 inputs0). set (p0 := fresh dims keep P mem0 inputs0).
+    assert (S0 : sim mods specs x0 p0) by (apply sim_fresh; auto).
+    assert (Sh : sim mods specs (run keep mods ops x0) (run keep P ops p0)).
+    { apply cache_network_behaves_pure; auto. apply (admissible_fresh_ok mods ops x0 Hadm). }
+    set (xh := run keep mods ops x0) in *. set (ph := run keep P ops p0) in *.
+    assert (Sf : sim mods specs (run keep mods (fresh_cycle seeds) xh) (run keep P (fresh_cycle seeds) ph)).
+    { apply cache_network_behaves_pure; auto. apply fresh_ok_cycle. }
+    assert (Sy : sim mods specs (run keep mods (fresh_cycle seeds) (fresh dims keep mods mem0 (s_st xh)))
+                                (run keep P (fresh_cycle seeds) (fresh dims keep P mem0 (s_st ph)))).
+    { apply cache_network_behaves_pure; auto; [|apply fresh_ok_cycle]. apply sim_fresh; auto. apply Sh. }
+    assert (HP : hwf P = true) by (unfold hwf, P; rewrite pures_shell by exact L; exact Hwf).
+    assert (HinP : forall s, ~ In s (h_written P) -> length (inputs0 s) = dims s).
+    { unfold P. rewrite pures_written by exact L. exact Hin. }
+    destruct (history_independent P mem0 inputs0 hist sets seeds HP Hsp (pures_memless mods specs) LP HinP Hsets Hsd
+                                  (admissible_run_sim mods specs Hwf Hs Hcc ops x0 p0 S0 Hadm)) as [A B].
+    fold ops p0 ph in A, B.
+    destruct Sf as [F1 [F2 _]]. destruct Sy as [Y1 [Y2 _]].
+    split.
+    - intros s. rewrite F1, Y1. apply A.
+    - intros s. rewrite F2, Y2. apply B.
   Qed.
 End HistProofs.
